@@ -80,12 +80,20 @@ def _generate_one(scratch: str, case: str, root: str) -> Tuple[str, int, str]:
     return case, p.returncode, (p.stdout + p.stderr)[-3000:]
 
 
-def generate_corpus(cases: Optional[List[Tuple[str, str]]] = None) -> Tuple[str, Dict[str, str]]:
-    """Returns (scratch dir, {case: error text for cases that failed to generate})."""
+def generate_corpus(cases: Optional[List[Tuple[str, str]]] = None,
+                    generated: Optional[List[Tuple[str, int]]] = None) -> Tuple[str, Dict[str, str]]:
+    """Returns (scratch dir, {case: error text for cases that failed to generate}).
+    `generated` = [(case name, seed)]: services written by sim/svcgen.py into the scratch dir."""
     scratch = tempfile.mkdtemp(prefix="bp-grpcsim-")
     _write_shims(os.path.join(scratch, "bin"))
     os.makedirs(os.path.join(scratch, "gen"), exist_ok=True)
-    cases = cases if cases is not None else corpus()
+    cases = list(cases if cases is not None else corpus())
+    if generated:
+        from . import svcgen
+        for name, seed in generated:
+            root = os.path.join(scratch, "protos", name)
+            svcgen.write_case(root, seed)
+            cases.append((name, root))
     failed: Dict[str, str] = {}
     with cf.ThreadPoolExecutor(max_workers=8) as ex:
         for case, rc, out in ex.map(lambda c: _generate_one(scratch, *c), cases):
